@@ -57,7 +57,7 @@ def run_items(items, job):
         if doc == "":
             R.skip("empty-document")
             continue
-        idx = int(key.split(":")[1]) if key[0] == "Z" else PL.mix(key) & 0xFFFF
+        idx = PL.item_index(it, key)
         v = set()
         detail = {"doc": doc, "configs": {}}
         for name, only in configs_for(idx, fixr):
